@@ -161,7 +161,7 @@ OwnerGet(o) ==
     /\ UNCHANGED core
 
 Subscribe(o, n) ==
-    /\ o \in owners /\ n = Smallest(SubIds \ subs) /\ (kind = "unique" \/ CanRead)
+    /\ o \in owners /\ n \in SubIds \ subs /\ (kind = "unique" \/ CanRead)
     /\ subs' = subs \cup {n}
     /\ obs' = [obs EXCEPT ![n] = ver]
     /\ unseen' = [unseen EXCEPT ![n] = FALSE]
@@ -172,7 +172,7 @@ Subscribe(o, n) ==
     /\ UNCHANGED <<kind, val, ver, owners, weaks, guards>>
 
 SubscribeReset(o, n) ==
-    /\ o \in owners /\ n = Smallest(SubIds \ subs)
+    /\ o \in owners /\ n \in SubIds \ subs
     /\ subs' = subs \cup {n}
     /\ obs' = [obs EXCEPT ![n] = 0]
     /\ unseen' = [unseen EXCEPT ![n] = TRUE]
@@ -183,7 +183,7 @@ SubscribeReset(o, n) ==
     /\ UNCHANGED <<kind, val, ver, owners, weaks, guards>>
 
 CloneOwner(o, n) ==
-    /\ kind = "shared" /\ o \in owners /\ n = Smallest(OwnerIds \ owners)
+    /\ kind = "shared" /\ o \in owners /\ n \in OwnerIds \ owners
     /\ owners' = owners \cup {n}
     /\ ret' = RNil
     /\ hist' = Append(hist, H("CloneOwner", o, 0, 0, n))
@@ -206,14 +206,14 @@ IntoShared(o) ==
     /\ UNCHANGED <<val, ver, owners, weaks, subs, obs, unseen, armed, registered, woken, owed, guards>>
 
 Downgrade(o, n) ==
-    /\ kind = "shared" /\ o \in owners /\ n = Smallest(WeakIds \ weaks)
+    /\ kind = "shared" /\ o \in owners /\ n \in WeakIds \ weaks
     /\ weaks' = weaks \cup {n}
     /\ ret' = RNil
     /\ hist' = Append(hist, H("Downgrade", o, 0, 0, n))
     /\ UNCHANGED <<kind, val, ver, owners, subs, obs, unseen, armed, registered, woken, owed, guards>>
 
 CloneWeak(w, n) ==
-    /\ w \in weaks /\ n = Smallest(WeakIds \ weaks)
+    /\ w \in weaks /\ n \in WeakIds \ weaks
     /\ weaks' = weaks \cup {n}
     /\ ret' = RNil
     /\ hist' = Append(hist, H("CloneWeak", w, 0, 0, n))
@@ -232,7 +232,7 @@ DropWeak(w) ==
 Upgrade(w, n) ==
     /\ w \in weaks
     /\ IF owners # {}
-       THEN /\ OwnerIds \ owners # {} /\ n = Smallest(OwnerIds \ owners)
+       THEN /\ n \in OwnerIds \ owners
             /\ owners' = owners \cup {n} /\ ret' = ROk
        ELSE /\ n = 0 /\ UNCHANGED owners /\ ret' = RFail
     /\ hist' = Append(hist, H("Upgrade", w, 0, 0, n))
@@ -240,14 +240,14 @@ Upgrade(w, n) ==
 
 (******************************* guards ************************************)
 OwnerRead(o, g) ==       \* SharedObservable::read
-    /\ kind = "shared" /\ o \in owners /\ CanRead /\ g = Smallest(FreeGuards)
+    /\ kind = "shared" /\ o \in owners /\ CanRead /\ g \in FreeGuards
     /\ guards' = [guards EXCEPT ![g] = [t |-> "r", of |-> "o", h |-> o, mut |-> FALSE]]
     /\ ret' = RVal(val)
     /\ hist' = Append(hist, H("Read", o, 0, 0, g))
     /\ UNCHANGED <<kind, val, ver, owners, weaks, subs, obs, unseen, armed, registered, woken, owed>>
 
 OwnerTryRead(o, g) ==    \* fails exactly while the write guard is alive
-    /\ kind = "shared" /\ o \in owners /\ FreeGuards # {} /\ g = Smallest(FreeGuards)
+    /\ kind = "shared" /\ o \in owners /\ FreeGuards # {} /\ g \in FreeGuards
     /\ IF CanRead
        THEN /\ guards' = [guards EXCEPT ![g] = [t |-> "r", of |-> "o", h |-> o, mut |-> FALSE]]
             /\ ret' = RVal(val)
@@ -256,20 +256,34 @@ OwnerTryRead(o, g) ==    \* fails exactly while the write guard is alive
     /\ UNCHANGED <<kind, val, ver, owners, weaks, subs, obs, unseen, armed, registered, woken, owed>>
 
 OwnerWrite(o, g) ==
-    /\ kind = "shared" /\ o \in owners /\ CanWrite /\ g = Smallest(FreeGuards)
+    /\ kind = "shared" /\ o \in owners /\ CanWrite /\ g \in FreeGuards
     /\ guards' = [guards EXCEPT ![g] = [t |-> "w", of |-> "o", h |-> o, mut |-> FALSE]]
     /\ ret' = RVal(val)
     /\ hist' = Append(hist, H("Write", o, 0, 0, g))
     /\ UNCHANGED <<kind, val, ver, owners, weaks, subs, obs, unseen, armed, registered, woken, owed>>
 
 OwnerTryWrite(o, g) ==   \* fails exactly while any guard is alive
-    /\ kind = "shared" /\ o \in owners /\ FreeGuards # {} /\ g = Smallest(FreeGuards)
+    /\ kind = "shared" /\ o \in owners /\ FreeGuards # {} /\ g \in FreeGuards
     /\ IF CanWrite
        THEN /\ guards' = [guards EXCEPT ![g] = [t |-> "w", of |-> "o", h |-> o, mut |-> FALSE]]
             /\ ret' = RVal(val)
        ELSE UNCHANGED guards /\ ret' = RFail
     /\ hist' = Append(hist, H("TryWrite", o, 0, 0, g))
     /\ UNCHANGED <<kind, val, ver, owners, weaks, subs, obs, unseen, armed, registered, woken, owed>>
+
+(* try_read / try_write whose guard is dropped at once (one call of the    *)
+(* threaded driver): only the outcome is observable.                       *)
+OwnerTryReadNow(o) ==
+    /\ kind = "shared" /\ o \in owners
+    /\ ret' = IF CanRead THEN RVal(val) ELSE RFail
+    /\ hist' = Append(hist, H("TryReadNow", o, 0, 0, 0))
+    /\ UNCHANGED core
+
+OwnerTryWriteNow(o) ==
+    /\ kind = "shared" /\ o \in owners
+    /\ ret' = IF CanWrite THEN RVal(val) ELSE RFail
+    /\ hist' = Append(hist, H("TryWriteNow", o, 0, 0, 0))
+    /\ UNCHANGED core
 
 GuardGet(g) ==           \* Deref of a read or write guard
     /\ g \in LiveGuards
@@ -315,7 +329,7 @@ NextNow(s) ==
     /\ UNCHANGED <<kind, val, ver, owners, weaks, subs, armed, registered, woken, owed, guards>>
 
 NextRefNow(s, g) ==
-    /\ s \in subs /\ ~SubBorrowed(s) /\ CanRead /\ g = Smallest(FreeGuards)
+    /\ s \in subs /\ ~SubBorrowed(s) /\ CanRead /\ g \in FreeGuards
     /\ obs' = [obs EXCEPT ![s] = ver]
     /\ unseen' = [unseen EXCEPT ![s] = FALSE]
     /\ guards' = [guards EXCEPT ![g] = [t |-> "r", of |-> "s", h |-> s, mut |-> TRUE]]
@@ -330,7 +344,7 @@ SubGet(s) ==
     /\ UNCHANGED core
 
 SubRead(s, g) ==
-    /\ s \in subs /\ ~SubBorrowedMut(s) /\ CanRead /\ g = Smallest(FreeGuards)
+    /\ s \in subs /\ ~SubBorrowedMut(s) /\ CanRead /\ g \in FreeGuards
     /\ guards' = [guards EXCEPT ![g] = [t |-> "r", of |-> "s", h |-> s, mut |-> FALSE]]
     /\ ret' = RVal(val)
     /\ hist' = Append(hist, H("SubRead", s, 0, 0, g))
@@ -345,7 +359,7 @@ Reset(s) ==
     /\ UNCHANGED <<kind, val, ver, owners, weaks, subs, armed, registered, woken, owed, guards>>
 
 CloneSub(s, n) ==
-    /\ s \in subs /\ ~SubBorrowedMut(s) /\ n = Smallest(SubIds \ subs)
+    /\ s \in subs /\ ~SubBorrowedMut(s) /\ n \in SubIds \ subs
     /\ subs' = subs \cup {n}
     /\ obs' = [obs EXCEPT ![n] = obs[s]]
     /\ unseen' = [unseen EXCEPT ![n] = unseen[s]]
@@ -356,7 +370,7 @@ CloneSub(s, n) ==
     /\ UNCHANGED <<kind, val, ver, owners, weaks, guards>>
 
 CloneReset(s, n) ==
-    /\ s \in subs /\ ~SubBorrowedMut(s) /\ n = Smallest(SubIds \ subs)
+    /\ s \in subs /\ ~SubBorrowedMut(s) /\ n \in SubIds \ subs
     /\ subs' = subs \cup {n}
     /\ obs' = [obs EXCEPT ![n] = 0]
     /\ unseen' = [unseen EXCEPT ![n] = TRUE]
@@ -377,6 +391,15 @@ DropSub(s) ==
 (******************************** Next *************************************)
 Writers == {<<"o", o>> : o \in OwnerIds} \cup {<<"g", g>> : g \in GuardIds}
 
+(* In Next the id of a newly created handle is the smallest free one (a     *)
+(* canonical choice that keeps the state space small); the actions         *)
+(* themselves accept any free id, which the concurrent trace               *)
+(* specification (TraceLin) relies on.                                     *)
+NewSub   == {Smallest(SubIds \ subs)}
+NewOwner == {Smallest(OwnerIds \ owners)}
+NewWeak  == {Smallest(WeakIds \ weaks)}
+NewGuard == {Smallest(FreeGuards)}
+
 Next ==
     \/ \E w \in Writers, a \in Vals :
           \/ Set(w[1], w[2], a) \/ SetIfNotEq(w[1], w[2], a) \/ SetIfHashNotEq(w[1], w[2], a)
@@ -385,20 +408,20 @@ Next ==
     \/ \E w \in Writers : Take(w[1], w[2])
     \/ \E o \in OwnerIds :
           \/ OwnerGet(o) \/ DropOwner(o) \/ IntoShared(o)
-          \/ \E n \in SubIds : Subscribe(o, n) \/ SubscribeReset(o, n)
-          \/ \E n \in OwnerIds : CloneOwner(o, n)
-          \/ \E n \in WeakIds : Downgrade(o, n)
-          \/ \E g \in GuardIds : OwnerRead(o, g) \/ OwnerTryRead(o, g) \/ OwnerWrite(o, g) \/ OwnerTryWrite(o, g)
+          \/ \E n \in NewSub : Subscribe(o, n) \/ SubscribeReset(o, n)
+          \/ \E n \in NewOwner : CloneOwner(o, n)
+          \/ \E n \in NewWeak : Downgrade(o, n)
+          \/ \E g \in NewGuard : OwnerRead(o, g) \/ OwnerTryRead(o, g) \/ OwnerWrite(o, g) \/ OwnerTryWrite(o, g)
     \/ \E w \in WeakIds :
           \/ DropWeak(w)
-          \/ \E n \in WeakIds : CloneWeak(w, n)
-          \/ \E n \in OwnerIds \cup {0} : Upgrade(w, n)
+          \/ \E n \in NewWeak : CloneWeak(w, n)
+          \/ \E n \in NewOwner \cup {0} : Upgrade(w, n)
     \/ \E g \in GuardIds : GuardGet(g) \/ DropGuard(g)
     \/ \E s \in SubIds :
           \/ \E via \in PollVias : Poll(s, via)
           \/ NextNow(s) \/ SubGet(s) \/ Reset(s) \/ DropSub(s)
-          \/ \E g \in GuardIds : NextRefNow(s, g) \/ SubRead(s, g)
-          \/ \E n \in SubIds : CloneSub(s, n) \/ CloneReset(s, n)
+          \/ \E g \in NewGuard : NextRefNow(s, g) \/ SubRead(s, g)
+          \/ \E n \in NewSub : CloneSub(s, n) \/ CloneReset(s, n)
 
 Spec == Init /\ [][Next]_vars
 
@@ -408,16 +431,16 @@ NextHandles ==
     \/ \E o \in OwnerIds :
           \/ DropOwner(o) \/ IntoShared(o) \/ OwnerGet(o)
           \/ \E a \in {1} : Set("o", o, a)
-          \/ \E n \in SubIds : Subscribe(o, n) \/ SubscribeReset(o, n)
-          \/ \E n \in OwnerIds : CloneOwner(o, n)
-          \/ \E n \in WeakIds : Downgrade(o, n)
+          \/ \E n \in NewSub : Subscribe(o, n) \/ SubscribeReset(o, n)
+          \/ \E n \in NewOwner : CloneOwner(o, n)
+          \/ \E n \in NewWeak : Downgrade(o, n)
     \/ \E w \in WeakIds :
           \/ DropWeak(w)
-          \/ \E n \in WeakIds : CloneWeak(w, n)
-          \/ \E n \in OwnerIds \cup {0} : Upgrade(w, n)
+          \/ \E n \in NewWeak : CloneWeak(w, n)
+          \/ \E n \in NewOwner \cup {0} : Upgrade(w, n)
     \/ \E s \in SubIds :
           \/ Poll(s, "Poll") \/ SubGet(s) \/ DropSub(s)
-          \/ \E n \in SubIds : CloneSub(s, n)
+          \/ \E n \in NewSub : CloneSub(s, n)
 
 SpecHandles == Init /\ [][NextHandles]_vars
 
